@@ -37,6 +37,15 @@ CLAIMS = {
                      "dialect's own fixtures that mention the culprit segment's keywords with the real parser.",
                 note="Trusted: the rule model for AnyNumberOf/Delimited (union/repetition) and the graph walker; greedy partial matches "
                      "and reindent.py's consumer are outside. Template-block indents are covered by C01's balance oracle."),
+    "C04": dict(design_ref="§3 C04", technique=SYM,
+                text="Narrow: ParseContext.deeper_match (symbolic limit and initial depth, 1..3 nested matches: SQLParseError iff the limit "
+                     "is exceeded, depth restored otherwise), increment_parse_nodes (unbounded limit/current/count), Linter._parse_tokens "
+                     "(node-limit pre-check with symbolic limit; a parser that raises SQLParseError with or without a segment, or returns "
+                     "None, yields a PRS violation and never raises), Linter.render_string (SQLTemplaterError / SQLFluffSkipFile raised "
+                     "after 0..2 variants are captured), SequentialRunner (an arbitrary exception while linting one file is swallowed and "
+                     "the other files still lint). Every other harness in this suite also treats an undeclared exception as a violation.",
+                note="Crash-freedom of the whole pipeline over arbitrary SQL is not encodable. Known findings F1 (dangling refs -> "
+                     "RuntimeError) and F3 (python templater AssertionError) are crashes and are reported as KNOWN-FINDING here."),
     "C05": dict(design_ref="§3 C05", technique=SYM + FORK.replace("through the real CLI on real files", "on the real kernel and, where expressible, by linting rendered SQL in 4 dialects"),
                 text="Anchored kernels only: (1) the real Rule_LT08._eval forward scan never raises for ANY sequence of <=4 (thorough 6) "
                      "segments of 7 kinds (comma, newline, whitespace, comment, code, CYCLE keyword, bracketed) following a CTE bracket; "
@@ -195,6 +204,13 @@ CLAIMS = {
                 text="Real deduplicate_in_source_space + source_signature over N<=3 (thorough 4) violations with symbolic line/col, code, "
                      "description, fix text and source fix: output sorted by (line, col), no two equal signatures, every input signature kept.",
                 note="Violation objects are real SQLLintError/SQLParseError with duck-typed rule/segment/fix stubs."),
+    "C32": dict(design_ref="§3 C32", technique=SYM + " (operation sequence solver-forked; real files; fresh-subprocess baseline)",
+                text="Narrow: every sequence of 2 (thorough 3) operations (lint / parse / render) over 5 real files (plain, jinja blocks, "
+                     "parse error, noqa, inline config) with a shared or fresh Linter: each lint equals the file's fresh-process baseline "
+                     "and no input file's bytes or mtime change. allowed_rule_ref_map: references expand identically whether or not it "
+                     "was called before on the same map; rule entries are never altered. BlockTracker class state does not change "
+                     "file B's segments (see C06).",
+                note="'Never opens a file for writing' is a syntactic fact, not a solver question; fix mode is outside."),
     "C34": dict(design_ref="§3 C34", technique=SYM,
                 text="load_raw_file_and_config with symbolic file size and byte limit, large_file_check with symbolic length and char "
                      "limit (both unbounded): skipped iff limit != 0 and size > limit, a skipped file is never opened/processed. Real "
@@ -210,5 +226,3 @@ NOT_APPLICABLE = {
     "C16": "oracle is SQLite executing the query before/after; no solver model of SQL semantics is within reach",
     "C17": "fixpoint of the whole rule set over arbitrary SQL; not encodable",
 }
-for _p in ["C04", "C32"]:
-    NOT_APPLICABLE.setdefault(_p, "check not built yet (planned, see DESIGN.md §3); not claimed until its harness is committed")
